@@ -56,13 +56,14 @@ typedef struct {
   const char *reject_why;
 } prog_t;
 
-typedef struct {
-  int graph;                    /* 1 chain2, 2 chain3, 3 diamond, 4 two unrelated parents, 5 compression shape, 6 diamond + one level */
+typedef struct pset_s {
+  int graph;                    /* 7 qualified super calls; 1 chain2, 2 chain3, 3 diamond, 4 two unrelated parents, 5 compression shape, 6 diamond + one level */
   int nprog;
   prog_t p[MAXP];
   int top;
   int ntgt, tprog[4], tclone[4];
   int hshape;                   /* graph 5 */
+  int qn, qi[3], qhas[3];       /* graph 7: inherit list (indices into QN[]) and which of them define f */
 } pset;
 
 static const int G3A[] = { K_PUBLIC, K_STATIC, K_PRIVATE, K_NOMASK };
@@ -74,12 +75,31 @@ static const int G3D[] = { K_ABSENT, K_PUBLIC, K_PRIVATE, K_VARARGS };
 #define N_G4 (8L * 8 * 9 * 3 * 3)
 #define N_G5 14L
 #define N_G6 (4L * 2 * 2 * 2 * 3)
-#define N_SETS (N_G1 + N_G2 + N_G3 + N_G4 + N_G5 + N_G6)
+#define N_G7 (56L * 3 + 6)
+#define N_SETS (N_G1 + N_G2 + N_G3 + N_G4 + N_G5 + N_G6 + N_G7)
 
+/* graph 7: qualified super calls name::f() over inherit lists whose file names are in suffix / prefix / same-basename relations */
+static const char *QN[] = { "a", "ba", "ab", "a_b", "b", "d1/a", "d2/a", "d1/ba" };
+#define NQ 8
+static const char *q_base (const char *n) { const char *s = strrchr (n, '/'); return s ? s + 1 : n; }
+static void decode_qual (long j, struct pset_s *S);
 static void setp (prog_t *p, char nm, int kind) { memset (p, 0, sizeof *p); p->nm[0] = nm; p->kind = kind; p->rdef = p->up = p->pdef[0] = p->pdef[1] = -1; }
 static void addpar (prog_t *p, int par, int mod) { p->par[p->npar] = par; p->mod[p->npar] = mod; p->npar++; }
 static void addtgt (pset *S, int prog, int clone) { S->tprog[S->ntgt] = prog; S->tclone[S->ntgt] = clone; S->ntgt++; }
 
+static void decode_qual (long j, pset *S) {
+  S->graph = 7;
+  if (j < 56 * 3) {
+    int pi = (int) (j / 3), kc = (int) (j % 3), i1 = pi / 7, r = pi % 7;
+    S->qn = 2; S->qi[0] = i1; S->qi[1] = r >= i1 ? r + 1 : r;
+    S->qhas[0] = kc != 2; S->qhas[1] = kc != 1;          /* both define f / only the first / only the second */
+  } else {
+    static const int P[6][3] = { { 0, 1, 6 }, { 0, 6, 1 }, { 1, 0, 6 }, { 1, 6, 0 }, { 6, 0, 1 }, { 6, 1, 0 } };   /* a, ba, d2/a in every order */
+    int k = (int) (j - 56 * 3);
+    S->qn = 3;
+    for (int x = 0; x < 3; x++) { S->qi[x] = P[k][x]; S->qhas[x] = 1; }
+  }
+}
 static void decode_set (long i, pset *S) {
   memset (S, 0, sizeof *S);
   if (i < N_G1) {
@@ -127,7 +147,8 @@ static void decode_set (long i, pset *S) {
     return;
   }
   i -= N_G4;
-  if (i >= N_G6) { S->graph = 5; S->hshape = (int) (i - N_G6); return; }
+  if (i >= N_G6 + N_G7) { S->graph = 5; S->hshape = (int) (i - N_G6 - N_G7); return; }
+  if (i >= N_G6) { decode_qual (i - N_G6, S); return; }
   {
     static const int KA[] = { K_PUBLIC, K_STATIC, K_PRIVATE, K_PROTECTED }, KB[] = { K_ABSENT, K_PUBLIC };
     S->graph = 6; S->nprog = 5; S->top = 4;
@@ -228,6 +249,13 @@ static int gen_source (const pset *S, int pi, const char *pre, int binmode, char
   else if (X->kind == K_VARARGS) EMIT ("varargs string f(string x) { ran(\"%c.f\"); return \"%c.f:\" + v%c + (x ? x : \"\"); }\n", N, N, N);
   else if (is_def (X->kind)) EMIT ("%sstring f() { ran(\"%c.f\"); return \"%c.f:\" + v%c; }\n", kdecl[X->kind], N, N, N);
   EMIT ("string g() { ran(\"%c.g\"); return \"%c.g:\" + v%c; }\n", N, N, N);
+  /* function pointers made at this level (to a local function that reads a variable of this level and makes a local call,
+     with and without a bound argument, and an anonymous one reading the variable), and an evaluator at this level */
+  EMIT ("string lf%c(string a) { ran(\"%c.lf\"); return \"%c.lf:\" + v%c + a + \"/\" + g(); }\n", N, N, N, N);
+  EMIT ("mixed mk%c(int k) { switch (k) { case 0: return (: lf%c, \"k\" :); case 1: return (: lf%c :); case 2: return (: $1 + v%c :);", N, N, N, N);
+  if (pi == S->top && X->has) EMIT (" case 3: return (: f :);");
+  EMIT (" } return 0; }\n");
+  EMIT ("mixed ev%c(function p, int how) { if (!how) return evaluate(p, \"e\"); return map_array(({ \"e\" }), p)[0]; }\n", N);
   if (X->up >= 0) EMIT ("string up%c_f() { ran(\"%c.up\"); return \"%c.up>\" + ::f(); }\n", N, N, N);
   if (X->npar == 2)
     for (int j = 0; j < 2; j++)
@@ -470,8 +498,13 @@ static void letter_text (int li, char *b, size_t n) {
 
 static void describe_set (const pset *s, int slt, char *b, size_t n) {
   int k = 0;
-  static const char *gn[] = { "?", "chain2", "chain3", "diamond", "two-parents", "compress", "diamond-plus-one" };
+  static const char *gn[] = { "?", "chain2", "chain3", "diamond", "two-parents", "compress", "diamond-plus-one", "qualified-super-calls" };
   k += snprintf (b + k, n - k, "%s salt=%d", gn[s->graph], slt);
+  if (s->graph == 7) {
+    k += snprintf (b + k, n - k, " T inherits");
+    for (int x = 0; x < s->qn; x++) k += snprintf (b + k, n - k, " %s{%s}", QN[s->qi[x]], s->qhas[x] ? "f" : "no f");
+    return;
+  }
   if (s->graph == 5) {
     hshape_t h = hshape_of (s->hshape);
     k += snprintf (b + k, n - k, " shape=%d %s M=%d override[%d..%d)", s->hshape, h.two ? "two-inherits" : "one-inherit", h.M, h.lo, h.lo + h.n);
@@ -1009,6 +1042,161 @@ static void remove_u (void) {
   rmdir (u_dir);
   u_dir[0] = 0;
 }
+/* ------------------------------------------------------------------ function pointers evaluated from elsewhere
+ * A pointer made at level X of an owner object (to a local function reading X's variable and making a local call, with /
+ * without a bound argument; anonymous; (: f :)) is evaluated by the driver (call_function_pointer from C, as call_out does),
+ * by code of every level Y of the owner itself (evaluate() and a map_array() callback), by code of every level of the most
+ * derived blueprint (another object when the owner is the clone) and by the caller object.  Code of a second or later
+ * inherit runs at non-zero function / variable offsets.  Whoever evaluates it, the pointer must give the owner's value. */
+struct fparg { svalue_t *fp; char out[400]; };
+static void fp_direct (void *p) {
+  struct fparg *a = p;
+  copy_and_push_string ("e");
+  svalue_t *r = call_function_pointer (a->fp->u.fp, 1);
+  snprintf (a->out, sizeof a->out, "%s", r ? hx_canon_s (r) : "NULL");
+}
+static int opt_fp;
+static void run_fp_probes (const char *when) {
+  static const char *kn[] = { "local-with-bound-arg", "local", "anonymous", "local-inherited-f" };
+  int owners[2] = { 0, S.ntgt - 1 };
+  for (int oi = 0; oi < 2; oi++) {
+    int t1 = owners[oi];
+    const char *suf = S.tclone[t1] ? "#" : "";
+    const prog_t *P = &S.p[S.tprog[t1]];
+    for (int x = 0; x < S.nprog; x++) {
+      if (!is_ancestor (x, S.tprog[t1])) continue;
+      const prog_t *X = &S.p[x];
+      for (int k = 0; k < 4; k++) {
+        char want[300], fn[16];
+        if (k == 3 && !(x == S.top && S.tprog[t1] == S.top && X->has)) continue;
+        if (k == 0 || k == 1) snprintf (want, sizeof want, "\"%s.lf:v%c%s%s/%s.g:v%c%s\"", X->nm, lower (X->nm[0]), suf, k ? "e" : "k", P->nm, lower (P->nm[0]), suf);
+        else if (k == 2) snprintf (want, sizeof want, "\"ev%c%s\"", lower (X->nm[0]), suf);
+        else if (X->rdef >= 0) {
+          char tag[80]; tag_of (X->rdef, t1, X->rpath, tag, sizeof tag);
+          snprintf (want, sizeof want, "\"%s%s\"", tag, S.p[X->rdef].kind == K_VARARGS ? "e" : "");
+        } else snprintf (want, sizeof want, "ERR");
+        snprintf (fn, sizeof fn, "mk%s", X->nm);
+        push_number (k);
+        svalue_t *r = hx_apply (tob[t1], fn, 1);
+        if (!r || r->type != T_FUNCTION) { set_fail ("C07:harness:no-function-pointer", "%s(%d) on %s = %s", fn, k, P->nm, r ? hx_canon_s (r) : hx_last_error); continue; }
+        svalue_t fpv; assign_svalue_no_free (&fpv, r);
+        /* evaluators: -1 driver, -2 caller object, else (target t2, level y, how) */
+        for (int t2i = 0; t2i < 2; t2i++) {
+          int t2 = t2i ? 0 : t1;
+          if (t2i && t1 == 0) break;
+          for (int y = -2; y < S.nprog; y++) {
+            if (y < 0 && t2i) continue;
+            if (y >= 0 && !is_ancestor (y, S.tprog[t2])) continue;
+            for (int how = 0; how < 2; how++) {
+              char res[400], who[80], key[200];
+              if (y < 0 && how) continue;
+              if (t2i && how) continue;
+              svalue_t *sp0 = sp;
+              if (y == -1) {
+                struct fparg a; a.fp = &fpv; a.out[0] = 0;
+                if (hx_guard (fp_direct, &a)) snprintf (res, sizeof res, "ERR:%.150s", hx_last_error); else snprintf (res, sizeof res, "%s", a.out);
+                snprintf (who, sizeof who, "the driver");
+              } else {
+                char efn[16];
+                if (y == -2) snprintf (efn, sizeof efn, "ev"); else snprintf (efn, sizeof efn, "ev%s", S.p[y].nm);
+                push_svalue (&fpv); push_number (how);
+                svalue_t *rr = hx_apply (y == -2 ? caller_ob : tob[t2], efn, 2);
+                if (rr) snprintf (res, sizeof res, "%s", hx_canon_s (rr)); else snprintf (res, sizeof res, "ERR:%.150s", hx_last_error);
+                if (y == -2) snprintf (who, sizeof who, "code of another object");
+                else snprintf (who, sizeof who, "%s in code of level %s of %s%s", how ? "a map_array callback" : "evaluate()", S.p[y].nm,
+                               t2 == t1 ? "the owner" : "the blueprint", "");
+              }
+              if (sp > sp0) pop_n_elems ((int) (sp - sp0));
+              for (char *q = res; *q; q++) if (*q == '\n') *q = ' ';
+              vx_count (2, 1);
+              if (!strcmp (want, "ERR") ? strncmp (res, "ERR", 3) != 0 : strcmp (res, want) != 0) {
+                snprintf (key, sizeof key, "C07:funptr:%s:%s-pointer-evaluated-by-%s", shape_class (), kn[k],
+                          y == -1 ? "driver" : y == -2 ? "other-object" : t2 != t1 ? "inherited-code-of-another-object" : y == S.tprog[t1] ? "own-code" : "inherited-code");
+                set_fail (key, "%s pointer %s made at level %s of %s%s, evaluated by %s = %s, expected %s", when, kn[k], X->nm, P->nm, suf, who, res, want);
+              }
+            }
+          }
+        }
+        free_svalue (&fpv, "c07");
+      }
+    }
+  }
+}
+
+/* ------------------------------------------------------------------ graph 7: qualified super calls */
+static void elem_qual (long idx) {
+  static const char *probe_q[] = { "a", "ba", "ab", "a_b", "b" };
+  char pre[32], src[6000], nm[80];
+  object_t *par[3];
+  int n;
+  (void) idx;
+  snprintf (pre, sizeof pre, "c07q");
+  vx_count (0, 1);
+  for (int x = 0; x < S.qn; x++) {
+    const char *name = QN[S.qi[x]];
+    n = snprintf (src, sizeof src, "// C07 qualified-call set, inherit %d: %s\n", x, name);
+    for (int k = 0; k < x; k++) n += snprintf (src + n, sizeof src - n, "string pad%d_%d = \"p\";\n", x, k);
+    n += snprintf (src + n, sizeof src - n, "string v%d = \"%s\";\n", x, name);
+    if (S.qhas[x]) n += snprintf (src + n, sizeof src - n, "string f() { return \"%s.f:\" + v%d; }\n", name, x);
+    n += snprintf (src + n, sizeof src - n, "string h%d() { return \"%s.h\"; }\n", x, name);
+    snprintf (nm, sizeof nm, "/%s/%s.c", pre, name);
+    par[x] = hx_load (nm, src);
+    if (!par[x]) { set_fail ("C07:harness:qualified-parent", "cannot load %s: %s", nm, hx_last_error); return; }
+  }
+  /* reference: name::f() reaches the first inherit, in inherit order, whose file name is `name` after its last '/',
+     and in which a definition of f is found; ::f() the first inherit in which one is found */
+  int res_of[8]; int unq = -1;
+  for (int x = 0; x < S.qn; x++) if (unq < 0 && S.qhas[x]) unq = x;
+  n = snprintf (src, sizeof src, "// C07 qualified-call set, most derived program\n");
+  for (int x = 0; x < S.qn; x++) n += snprintf (src + n, sizeof src - n, "inherit \"/%s/%s\";\n", pre, QN[S.qi[x]]);
+  n += snprintf (src + n, sizeof src - n, "string vt = \"t\";\n");
+  for (int q = 0; q < 5; q++) {
+    res_of[q] = -1;
+    for (int x = 0; x < S.qn; x++) if (res_of[q] < 0 && S.qhas[x] && !strcmp (q_base (QN[S.qi[x]]), probe_q[q])) res_of[q] = x;
+    if (res_of[q] >= 0) n += snprintf (src + n, sizeof src - n, "string q_%s() { return \"%s::>\" + %s::f(); }\n", probe_q[q], probe_q[q], probe_q[q]);
+  }
+  if (unq >= 0) n += snprintf (src + n, sizeof src - n, "string up() { return \"::>\" + ::f(); }\n");
+  snprintf (nm, sizeof nm, "/%s/T.c", pre);
+  object_t *T = hx_load (nm, src);
+  char *cl = hx_master_str ("take_clog");
+  if (!T) { set_fail ("C07:compile:compiler-rejects-what-the-rules-accept", "most derived program of the qualified-call set rejected: %s [%s]", cl, hx_last_error); return; }
+  snprintf (nm, sizeof nm, "/%s/T", pre);
+  object_t *C = do_clone (nm);
+  object_t *tg[2] = { T, C };
+  for (int t = 0; t < 2; t++) {
+    if (!tg[t]) continue;
+    for (int q = -1; q < 5; q++) {
+      int x = q < 0 ? unq : res_of[q];
+      char fn[24], want[200];
+      if (x < 0) continue;
+      if (q < 0) { snprintf (fn, sizeof fn, "up"); snprintf (want, sizeof want, "\"::>%s.f:%s\"", QN[S.qi[x]], QN[S.qi[x]]); }
+      else { snprintf (fn, sizeof fn, "q_%s", probe_q[q]); snprintf (want, sizeof want, "\"%s::>%s.f:%s\"", probe_q[q], QN[S.qi[x]], QN[S.qi[x]]); }
+      svalue_t *r = hx_apply (tg[t], fn, 0);
+      const char *res = r ? hx_canon_s (r) : hx_last_error;
+      vx_count (2, 1);
+      vx_obs ("%s() on %s = %s", fn, t ? "clone" : "blueprint", res);
+      if (strcmp (res, want)) set_fail (q < 0 ? "C07:resolve:qualified-super-call:unqualified" : "C07:resolve:qualified-super-call:wrong-inherit",
+                                        "%s() on the %s = %s, reference resolver says %s", fn, t ? "clone" : "blueprint", res, want);
+    }
+  }
+  /* a qualifier that names none of the inherits (or only one without f) must be rejected */
+  for (int q = 0; q < 5; q++) {
+    if (res_of[q] >= 0) continue;
+    n = snprintf (src, sizeof src, "// C07 qualified-call set: %s:: names no inherit with f\n", probe_q[q]);
+    for (int x = 0; x < S.qn; x++) n += snprintf (src + n, sizeof src - n, "inherit \"/%s/%s\";\n", pre, QN[S.qi[x]]);
+    n += snprintf (src + n, sizeof src - n, "string r() { return %s::f(); }\n", probe_q[q]);
+    snprintf (nm, sizeof nm, "/%s/R%d.c", pre, q);
+    object_t *R = hx_load (nm, src);
+    hx_master_str ("take_clog");
+    vx_count (1, R == 0);
+    if (R) {
+      svalue_t *r = hx_apply (R, "r", 0);
+      set_fail ("C07:compile:compiler-accepts-what-the-rules-reject", "%s::f() compiled although no inherit is named %s (or none of them defines f); it returns %s", probe_q[q], probe_q[q],
+                r ? hx_canon_s (r) : hx_last_error);
+    }
+  }
+}
+
 static void elem_body (long idx);
 static void elem (long idx) { elem_body (idx); remove_u (); }
 static void elem_body (long idx) {
@@ -1020,6 +1208,7 @@ static void elem_body (long idx) {
   vx_obs ("set %ld: %s", idx, d);
   apply_salt (salt);
   vx_count (7, sname[N_F] < sname[N_G]);
+  if (S.graph == 7) { elem_qual (idx); return; }
 
   caller_ob = hx_load ("/caller.c", 0);
   if (!caller_ob) { vx_fail ("C07:harness:caller", "cannot load caller: %s", hx_last_error); return; }
@@ -1099,7 +1288,7 @@ static void elem_body (long idx) {
     vx_obs ("cold %s = %s", lt, cold[li]);
   }
   if (S.graph == 5) check_compress ("first compile");
-  else run_probes (1, probe_res, "cold");
+  else { run_probes (1, probe_res, "cold"); if (opt_fp) run_fp_probes ("cold"); }
 
   if (opt_bin) {
     /* save-binary / load-binary round trip: destruct everything, load again (now from the .b files) */
@@ -1133,7 +1322,7 @@ static void elem_body (long idx) {
       cold[li] = strdup (obs);
     }
     if (S.graph == 5) check_compress ("after load-binary");
-    else run_probes (0, probe_res, "after load-binary");
+    else { run_probes (0, probe_res, "after load-binary"); if (opt_fp) run_fp_probes ("after load-binary"); }
   } else {
     /* a second compile of the same text (other path prefix, other program ids) behaves identically */
     object_t *save_tob[4]; memcpy (save_tob, tob, sizeof tob);
@@ -1203,6 +1392,7 @@ int main (int argc, char **argv) {
   opt_bin = (int) vx_opt_long ("bin", 0);
   opt_deep = (int) vx_opt_long ("deep", 1);
   opt_extra = (int) vx_opt_long ("extra", 2);
+  opt_fp = (int) vx_opt_long ("fp", 1);
   selftest = (int) vx_opt_long ("selftest", 0);
   /* scratch copy of the C07 mudlib (binaries and generated sources are written below it); on tmpfs when
      there is one: the round trip creates and deletes ~10 files per element */
